@@ -461,6 +461,115 @@ func RunRapid(c *core.Ctx) {
 			"seconds->\"seconds\" (int64), nanos->\"nanos\" (int32)", fmt.Sprintf("field mapping is %v", got), pos(f.Pos()), src)
 	}
 
+	// ------------------------------------------------------------------ RAPID.dispatch
+	// the well-known types are recognised by their real full names and each is handed to its own generator
+	{
+		want := map[string]string{
+			"google.protobuf.Timestamp": "genTimestamp", "google.protobuf.Duration": "genDuration",
+			"google.protobuf.Any": "genAny", "google.protobuf.FieldMask": "genFieldMask",
+		}
+		gens := map[string]bool{}
+		for _, g := range want {
+			gens[g] = true
+		}
+		var fd *ast.FuncDecl
+		for _, file := range pkg.Syntax {
+			for _, d := range file.Decls {
+				if f, ok := d.(*ast.FuncDecl); ok && f.Name.Name == "setFields" && f.Body != nil {
+					fd = f
+				}
+			}
+		}
+		seenCase := map[string]bool{}
+		if fd == nil {
+			c.Undec("RAPID.dispatch", "rapidproto.setFields", "declaration not found", "", src)
+		} else {
+			callsIn := func(n ast.Node) map[string]bool {
+				out := map[string]bool{}
+				ast.Inspect(n, func(x ast.Node) bool {
+					if ce, ok := x.(*ast.CallExpr); ok {
+						if f, ok := core.CalleeObj(pkg.TypesInfo, ce).(*types.Func); ok && f.Pkg() == pkg.Types && gens[f.Name()] {
+							out[f.Name()] = true
+						}
+					}
+					return true
+				})
+				return out
+			}
+			inCases := map[string]bool{}
+			ast.Inspect(fd.Body, func(n ast.Node) bool {
+				sw, ok := n.(*ast.SwitchStmt)
+				if !ok || sw.Tag == nil {
+					return true
+				}
+				// the tag is msg.Descriptor().FullName(), directly or through a local assigned once
+				tagOK := false
+				tag := ast.Unparen(sw.Tag)
+				if id, ok := tag.(*ast.Ident); ok {
+					ast.Inspect(fd.Body, func(m ast.Node) bool {
+						if as, ok := m.(*ast.AssignStmt); ok && len(as.Lhs) == 1 && len(as.Rhs) == 1 {
+							if l, ok := as.Lhs[0].(*ast.Ident); ok && pkg.TypesInfo.ObjectOf(l) == pkg.TypesInfo.ObjectOf(id) {
+								tag = as.Rhs[0]
+							}
+						}
+						return true
+					})
+				}
+				if ce, ok := tag.(*ast.CallExpr); ok {
+					if f, ok := core.CalleeObj(pkg.TypesInfo, ce).(*types.Func); ok && f.Name() == "FullName" {
+						tagOK = true
+					}
+				}
+				if !tagOK {
+					return true
+				}
+				for _, st := range sw.Body.List {
+					cc := st.(*ast.CaseClause)
+					calls := callsIn(cc)
+					for g := range calls {
+						inCases[g] = true
+					}
+					if cc.List == nil {
+						for g := range calls {
+							c.Fail("RAPID.dispatch", "rapidproto.setFields default arm calls "+g, "the generic arm calls a well-known-type generator", pos(cc.Pos()), src)
+						}
+						continue
+					}
+					for _, e := range cc.List {
+						tv := pkg.TypesInfo.Types[e]
+						if tv.Value == nil || tv.Value.Kind() != constant.String {
+							c.Undec("RAPID.dispatch", "rapidproto.setFields case "+types.ExprString(e), "case label is not a string constant", pos(e.Pos()), src)
+							continue
+						}
+						name := constant.StringVal(tv.Value)
+						seenCase[name] = true
+						g, known := want[name]
+						if !known {
+							for gg := range calls {
+								c.Fail("RAPID.dispatch", "rapidproto.setFields case \""+name+"\"", "messages named "+name+" are handed to "+gg, pos(e.Pos()), src)
+							}
+							continue
+						}
+						ok := calls[g] && len(calls) == 1 && len(cc.List) == 1
+						c.Check(ok, "RAPID.dispatch", "rapidproto.setFields case \""+name+"\"", name+" -> "+g,
+							fmt.Sprintf("messages named %s must be generated by %s alone; the arm calls %v", name, g, keys(calls)), pos(e.Pos()), src)
+					}
+				}
+				return true
+			})
+			for name, g := range want {
+				if !seenCase[name] {
+					c.Fail("RAPID.dispatch", "rapidproto.setFields case \""+name+"\"", "no case for "+name+" (generator "+g+"): the generic field walk would produce invalid values for it", pos(fd.Pos()), src)
+				}
+			}
+			for g := range callsIn(fd.Body) {
+				if !inCases[g] {
+					c.Fail("RAPID.dispatch", "rapidproto.setFields call of "+g, g+" is called outside the full-name dispatch", pos(fd.Pos()), src)
+				}
+			}
+		}
+	}
+
 	// ------------------------------------------------------------------ RAPID.opts
 	{
 		f := byName["setFieldValue"]
@@ -1071,4 +1180,13 @@ func guardedNonNil(p *ssa.Parameter, b *ssa.BasicBlock) bool {
 		}
 	}
 	return false
+}
+
+func keys(m map[string]bool) []string {
+	var out []string
+	for k := range m {
+		out = append(out, k)
+	}
+	sort.Strings(out)
+	return out
 }
